@@ -79,6 +79,8 @@ def job(item):
 
 def record(entry, kw, sp, prefixes, c, c2, ps, stats, only_field=None):
     runs = {}
+    lo = D.min_len(entry, kw)
+    prefixes = [k for k in prefixes if k >= lo]
     for k in prefixes:
         stats["calls"] += 1
         try:
@@ -168,6 +170,16 @@ def run(ctx):
     items = plan(ctx, cat)
     ctx.log("evaluating %d indicators" % len(items))
     res = D.pmap(job, items)
+    crashed = []
+    # a child that died (memory-unsafe kernel) is retried one parameter set at a time; what dies again is listed
+    retry = [(it[0], [kw], it[2], it[3]) for it, r in zip(items, res) if r[0] == "CRASH" for kw in it[1]]
+    res = [r for r in res if r[0] != "CRASH"]
+    if retry:
+        for it, r in zip(retry, D.pmap(job, retry)):
+            if r[0] == "CRASH":
+                crashed.append("%s(%s): %s" % (it[0]["name"], params_key(it[1][0]), r[1]))
+            else:
+                res.append(r)
     traces, calls, skipped, notseries, excs = [], 0, 0, {}, {}
     per_ind = {}
     for r in res:
@@ -177,7 +189,7 @@ def run(ctx):
         traces += tr
         calls += st["calls"]
         skipped += st["skipped"]
-        per_ind[name] = len(tr)
+        per_ind[name] = per_ind.get(name, 0) + len(tr)
         if st["not_series"]:
             notseries[name] = st["not_series"]
         for k, v in st["exc"].items():
@@ -199,7 +211,7 @@ def run(ctx):
                                                                 "last_tokens": e["out"][-3:]} for e in t["ev"][:3]]})
     ctx.coverage.update({
         "traces_validated_against_impl": len(traces), "indicator_calls": calls, "calls_skipped_exception": skipped,
-        "exception_classes": excs, "indicators_covered": len(per_ind),
+        "exception_classes": excs, "indicators_covered": len(per_ind), "interpreter_crashes": crashed,
         "fields_covered": len({(t["hdr"]["ind"], t["hdr"]["field"]) for t in traces}),
         "outside_property_no_sequential_parameter": outside, "non_series_fields": notseries,
         "trace_events_checked_by_tlc": sum(r.generated for r in results), "rejected_traces": bad,
